@@ -6,6 +6,7 @@ import (
 	"go/token"
 	"go/types"
 	"regexp"
+	"safecheck/relang"
 	"sort"
 
 	"golang.org/x/tools/go/ssa"
@@ -407,7 +408,16 @@ func runC12(p *Program, r *Report) {
 		if !hasLen {
 			miss = append(miss, "len(url) != 0")
 		}
-		if !hasURL {
+		if !hasURL && g != nil {
+			// not literally the guard function: decide by language that the guards on this
+			// candidate's URL accept only what the URL guard accepts
+			ok, why := urlGuardedByLanguage(p, g, w.Block(), urlVal)
+			if ok {
+				hasURL = true
+			} else {
+				miss = append(miss, "URL guard (the function C11 summarises) on this candidate's URL ["+why+"]")
+			}
+		} else if !hasURL {
 			miss = append(miss, "URL guard (the function C11 summarises) on this candidate's URL")
 		}
 		if !hasMeta {
@@ -828,4 +838,85 @@ func checkDescriptorGuard(p *Program, r *Report, pv *Prov, fn *ssa.Function) {
 		r.Check(okArg, "C12.R5", c, pos, "accepts iff ParseFloat succeeds on the descriptor, or on the descriptor without its last byte when that byte is an ASCII letter",
 			"the string handed to ParseFloat drops more than one final ASCII letter")
 	}
+}
+
+// dependsOnValue reports whether v is computed from x (operands followed inside the function).
+func dependsOnValue(v, x ssa.Value) bool {
+	seen := map[ssa.Value]bool{}
+	var walk func(ssa.Value) bool
+	walk = func(y ssa.Value) bool {
+		if y == x {
+			return true
+		}
+		if seen[y] {
+			return false
+		}
+		seen[y] = true
+		in, ok := y.(ssa.Instruction)
+		if !ok {
+			return false
+		}
+		for _, op := range in.Operands(nil) {
+			if *op != nil && walk(*op) {
+				return true
+			}
+		}
+		return false
+	}
+	return walk(v)
+}
+
+// urlGuardedByLanguage decides whether the guards that dominate block b and that test
+// urlVal accept only strings accepted by the URL guard g (language inclusion). Guards on
+// other values are ignored (they can only shrink the accepted set).
+func urlGuardedByLanguage(p *Program, g *urlGuard, b *ssa.BasicBlock, urlVal ssa.Value) (bool, string) {
+	s := NewSummarizer(p, g.Regexes)
+	env := termEnv{urlVal: Term{Param: 0}}
+	var fs []*Form
+	for _, gd := range GuardsOf(b) {
+		if !dependsOnValue(gd.Cond, urlVal) {
+			continue
+		}
+		f := s.ValueForm(gd.Cond, env)
+		if u, _ := f.HasUnknown(); u {
+			continue // a dropped conjunct only enlarges the accepted set
+		}
+		if !gd.Pol {
+			f = fNot(f)
+		}
+		fs = append(fs, f)
+	}
+	if len(fs) == 0 {
+		return false, "no summarisable guard on the URL"
+	}
+	cond := fAnd(fs...)
+	per, ok := splitByParam(cond)
+	if !ok || per[Term{Param: 0}.Key()] == nil {
+		return false, "guards are not conditions on the URL alone"
+	}
+	s2 := NewSummarizer(p, g.Regexes)
+	gf := s2.FuncForm(g.Fn, termEnv{g.Fn.Params[0]: Term{Param: 0}})
+	if u, why := gf.HasUnknown(); u || len(s2.Inexact) > 0 {
+		return false, "URL guard not summarisable exactly: " + why
+	}
+	L := NewLang()
+	if err := registerSumm(L, s, cond); err != nil {
+		return false, err.Error()
+	}
+	if err := registerSumm(L, s2, gf); err != nil {
+		return false, err.Error()
+	}
+	L.Build()
+	A, amb, err := L.Eval(per[Term{Param: 0}.Key()])
+	if err != nil || len(amb) > 0 {
+		return false, fmt.Sprintf("%v %v", err, amb)
+	}
+	G, amb, err := L.Eval(gf)
+	if err != nil || len(amb) > 0 || L.Overapprox {
+		return false, fmt.Sprintf("URL guard language not exact: %v %v", err, amb)
+	}
+	if ok, w := relang.Subset(A, G); !ok {
+		return false, "a URL passes the guards here that the URL guard rejects, e.g. " + w
+	}
+	return true, ""
 }
